@@ -132,3 +132,51 @@ Example C14_example_mixed :
   /\ best_fft F 5 (serial_mixed_radix_fft F 3) [1;2;3;4;5;6;7;8;9;10;11;12] w 2
      = serial_mixed_radix_fft F 3 [1;2;3;4;5;6;7;8;9;10;11;12] w 2.
 Proof. vm_compute. split; reflexivity. Qed.
+
+(* ====================================================================================== *)
+(* Extension: the premise `mixed_serial_is_dft` of the two `_partial` theorems above is    *)
+(* discharged by C07/MixedSpec.v (serial_mixed_radix_fft computes the DFT): FULL statements *)
+(* for a mixed-radix domain of size n = 2^s q^t (q odd >= 3, d_log = s) whose generator has *)
+(* gen^n = 1 and gen^(n/2) = -1 when s >= 1 (what get_root_of_unity returns, C07); EVERY nt. *)
+(* ====================================================================================== *)
+From V Require Import C14.MixedFull.
+
+(* best_fft over the serial mixed-radix transform is independent of the thread count *)
+Theorem C14_best_fft_mixed_equals_serial : forall T (F : Fops T), is_field F ->
+  forall (nt : Z) (q s t : nat) omega (a : list T),
+  (3 <= q)%nat -> Z.odd (Z.of_nat q) = true -> length a = (2 ^ s * q ^ t)%nat ->
+  pown F omega (2 ^ s * q ^ t) = f1 F ->
+  ((1 <= s)%nat -> pown F omega (2 ^ (s - 1) * q ^ t) = fneg F (f1 F)) ->
+  best_fft F nt (serial_mixed_radix_fft F (Z.of_nat q)) a omega (Z.of_nat s)
+  = serial_mixed_radix_fft F (Z.of_nat q) a omega (Z.of_nat s).
+Proof. exact (@best_fft_mixed). Qed.
+
+Theorem C14_par_mixed_fft_equals_serial : forall T (F : Fops T), is_field F ->
+  forall (nt : Z) (q s t : nat) (d : domain T) coeffs,
+  (3 <= q)%nat -> Z.odd (Z.of_nat q) = true ->
+  d_size d = Z.of_nat (2 ^ s * q ^ t) -> d_log d = Z.of_nat s ->
+  pown F (d_gen d) (2 ^ s * q ^ t) = f1 F ->
+  ((1 <= s)%nat -> pown F (d_gen d) (2 ^ (s - 1) * q ^ t) = fneg F (f1 F)) ->
+  par_mixed_fft F nt (Z.of_nat q) d coeffs = mixed_fft F (Z.of_nat q) d coeffs.
+Proof. exact (@par_mixed_fft_equals_serial_full). Qed.
+
+Theorem C14_par_mixed_ifft_equals_serial : forall T (F : Fops T), is_field F ->
+  forall (nt : Z) (q s t : nat) (d : domain T) evals,
+  (3 <= q)%nat -> Z.odd (Z.of_nat q) = true ->
+  d_size d = Z.of_nat (2 ^ s * q ^ t) -> d_log d = Z.of_nat s ->
+  fmul F (d_gen d) (d_gen_inv d) = f1 F ->
+  pown F (d_gen d) (2 ^ s * q ^ t) = f1 F ->
+  ((1 <= s)%nat -> pown F (d_gen d) (2 ^ (s - 1) * q ^ t) = fneg F (f1 F)) ->
+  par_mixed_ifft F nt (Z.of_nat q) d evals = mixed_ifft F (Z.of_nat q) d evals.
+Proof. exact (@par_mixed_ifft_equals_serial_full). Qed.
+
+(* non-vacuity: F_97 (q = 3), w = 5^8 of order 12 = 2^2 * 3 (w^6 = -1), domain record of size 12, 5 and 64 threads *)
+Example C14_example_mixed_full :
+  let F := ZpOps 97 in
+  let w := pown F 5 8 in
+  let d := mkDomain true 12 2 12 (finv F 12) w (finv F w) 1 1 1 in
+  pown F w 12 = f1 F /\ pown F w 6 = fneg F (f1 F) /\ fmul F w (finv F w) = f1 F
+  /\ par_mixed_fft F 5 3 d [1;2;3;4;5;6;7] = mixed_fft F 3 d [1;2;3;4;5;6;7]
+  /\ par_mixed_fft F 64 3 d [1;2;3;4;5;6;7] = mixed_fft F 3 d [1;2;3;4;5;6;7]
+  /\ par_mixed_ifft F 5 3 d [1;2;3;4;5;6;7;8;9;10;11;12] = mixed_ifft F 3 d [1;2;3;4;5;6;7;8;9;10;11;12].
+Proof. vm_compute. repeat split; reflexivity. Qed.
